@@ -43,6 +43,32 @@ def load_variants(pid):
                 continue
             out.append({"name": f"seeded/{d}: {meta.get('title', '')}"[:160], "kind": "patch", "patch": os.path.join(sd, d, "patch.diff"),
                         "expect": meta.get("expect", {}).get(pid, "VIOLATION")})
+    # behaviour-preserving edits written by independent agents acting as maintainers (benign/<ID>-bN): every check must stay silent on them.  The edits of
+    # ALL properties that touch a file this property's check consults are used (an edit seeded against C01 also concerns C02, C10, C18 …).
+    bd = os.path.join(VERIF, "benign")
+    known = {}
+    kp = os.path.join(bd, "KNOWN_ALARMS.json")
+    if os.path.exists(kp):
+        with open(kp) as f:
+            known = json.load(f)
+    consulted = set()
+    ep = os.path.join(VERIF, "evidence", f"{pid}.json")
+    if os.path.exists(ep):
+        try:
+            with open(ep) as f:
+                consulted = set(json.load(f).get("coverage", {}).get("files_consulted", []))
+        except (OSError, ValueError):
+            consulted = set()
+    if os.path.isdir(bd):
+        for d in sorted(os.listdir(bd)):
+            pp = os.path.join(bd, d, "patch.diff")
+            if not os.path.exists(pp):
+                continue
+            files = set(patch_files(pp))
+            if not (d.startswith(pid + "-") or files & consulted):
+                continue
+            exp = "VIOLATION" if pid in known.get(d, {}).get("alarms", []) else "silent"
+            out.append({"name": f"benign/{d}"[:160], "kind": "patch", "patch": pp, "expect": exp})
     return out
 
 
